@@ -242,7 +242,7 @@ Inductive lop :=
 Inductive levent :=
 | VRet (c : Z)
 | VCb (tag : nat) (i : nat) (nw : Z)      (* tag: 0 timer 1 idle 2 prepare 3 check 4 async 5 after_work 6 close *)
-| VPoll (timeout : Z)
+| VPoll (timeout : Z) (idle closing stop work : bool)   (* + what the blocking rules depend on *)
 | VHang
 | VAlive (b : bool)
 | VObs (nact nreq : Z) (flags : list (bool * bool * bool * bool))   (* active, ref, closing, closed *)
@@ -390,6 +390,12 @@ Fixpoint run_alq (fuel : nat) (s : lstate) (beh : nat -> list lop) : lstate * li
       end
   end.
 
+Definition vpoll (s : lstate) (t : Z) : levent :=
+  VPoll t (existsb (fun h => hkind_eqb (h_kind h) KIdle && h_active h) (hs s))
+          (existsb (fun h => h_closing h && negb (h_closed h)) (hs s))
+          (stop_flag s)
+          ((0 <? nreq s) || existsb (fun h => h_active h && h_ref h && negb (h_closing h)) (hs s)).
+
 (* uv__io_poll as far as this model's handles are concerned *)
 Definition io_poll (s : lstate) (beh : nat -> list lop) (timeout : Z) : lstate * list levent :=
   if efd s then
@@ -406,19 +412,19 @@ Definition io_poll (s : lstate) (beh : nat -> list lop) (timeout : Z) : lstate *
     let q := async_q s2 in
     let s3 := set_alq (set_async s2 []) q in
     let '(s4, e2) := run_alq (length q) s3 beh in
-    (s4, VPoll (if metrics s then 0 else timeout) :: e1 ++ e2)
-  else if timeout =? 0 then (update_time s, [VPoll 0])
+    (s4, vpoll s (if metrics s then 0 else timeout) :: e1 ++ e2)
+  else if timeout =? 0 then (update_time s, [vpoll s 0])
   else if timeout <? 0 then
     (* nothing can wake the loop: reported, then the harness breaks the block *)
-    (set_stop (update_time s) true, [VPoll timeout; VHang])
+    (set_stop (update_time s) true, [vpoll s timeout; VHang])
   else if metrics s then
     (* UV_METRICS_IDLE_TIME: a non-blocking poll first; the time that passed
        since the timeout was computed (loop->time is refreshed after that
        poll) is taken off the timeout *)
     let rem := timeout - (clock s - now (ts s)) in
-    if rem <=? 0 then (update_time s, [VPoll 0])
-    else (update_time (set_clock s (clock s + rem)), [VPoll rem])
-  else (update_time (set_clock s (clock s + timeout)), [VPoll timeout]).
+    if rem <=? 0 then (update_time s, [vpoll s 0])
+    else (update_time (set_clock s (clock s + rem)), [vpoll s rem])
+  else (update_time (set_clock s (clock s + timeout)), [vpoll s timeout]).
 
 (* uv__run_closing_handles *)
 Fixpoint run_closing (l : list nat) (s : lstate) (beh : nat -> list lop) : lstate * list levent :=
